@@ -5,6 +5,7 @@ mod c02;
 mod c03;
 mod c04;
 mod c06;
+mod c08;
 mod c09;
 mod c10;
 mod c10_conn;
@@ -24,6 +25,7 @@ pub fn run(opts: &Opts) -> i32 {
         "C04" => c04::run(opts),
         "C05" => walkprops::run(opts, "C05"),
         "C06" => c06::run(opts),
+        "C08" => c08::run(opts),
         "C09" => c09::run(opts),
         "C11" => c11::run(opts),
         "C12" => c12::run(opts),
